@@ -152,7 +152,7 @@ func genTree(t *rapid.T, label string) (files map[string]string, dirs []string) 
 
 func genLayer(t *rapid.T, label string, kinds []string) c19Layer {
 	k := rapid.SampledFrom(kinds).Draw(t, label+"Kind")
-	l := c19Layer{Kind: k, Root: rapid.IntRange(0, 4).Draw(t, label+"Root")}
+	l := c19Layer{Kind: k, Root: rapid.IntRange(0, 6).Draw(t, label+"Root")}
 	if k != "embed" {
 		l.Files, l.Dirs = genTree(t, label)
 	}
@@ -328,7 +328,15 @@ func buildLayer(l c19Layer, tmpRoot string, idx int, chdir *string) (jet.Loader,
 		}
 	}
 	if l.Kind == "os" {
-		spelt := []string{root, root + "/", filepath.Dir(root) + "/./" + filepath.Base(root), root + "/sub/..", root + "//"}[l.Root%5]
+		spelt := []string{root, root + "/", filepath.Dir(root) + "/./" + filepath.Base(root), root + "/sub/..", root + "//", ".", "./"}[l.Root%7]
+		if l.Root%7 >= 5 {
+			// the working directory as root
+			if *chdir != "" {
+				spelt = root
+			} else {
+				*chdir = root
+			}
+		}
 		return jet.NewOSFileSystemLoader(spelt), model, nil
 	}
 	// how the http.Dir is spelt; the empty Dir means the working directory
@@ -424,6 +432,9 @@ func judgeC19(c c19Case) (v core.Verdict) {
 		if chdir != "" && ly.Kind == "http" && ly.Root%4 == 3 {
 			v.Label("http.Dir-empty-root")
 		}
+		if chdir != "" && ly.Kind == "os" && ly.Root%7 >= 5 {
+			v.Label("os-loader-rooted-at-working-directory")
+		}
 		loaders = append(loaders, l)
 		models = append(models, m)
 		v.Label("layer:" + ly.Kind)
@@ -487,6 +498,25 @@ func judgeC19(c c19Case) (v core.Verdict) {
 		if !check("multi after AddLoaders", m, models) {
 			return
 		}
+	}
+	// two stacks built from the very same slice of loaders; one is emptied and refilled with something else:
+	// the other still answers from its own loaders, in its own order
+	list := append(make([]jet.Loader, 0, len(loaders)), loaders...)
+	m1, m2 := multi.NewLoader(list...), multi.NewLoader(list...)
+	m2.ClearLoaders()
+	foreign := jet.NewInMemLoader()
+	fm := map[string]string{}
+	for _, q := range c.Queries {
+		foreign.Set(q, "FOREIGN")
+		fm[normPath(q)] = "FOREIGN"
+	}
+	m2.AddLoaders(foreign)
+	v.Label("clearloaders")
+	if !check("multi whose sibling (built from the same slice) was cleared and refilled", m1, models) {
+		return
+	}
+	if !check("multi after ClearLoaders + AddLoaders", m2, []map[string]string{fm}) {
+		return
 	}
 	v.NonTrivial = isDirOrLater
 	return
